@@ -136,7 +136,7 @@ def work(item, tier, seed):
     out = Out()
     out.set_item(item)
     warnings.simplefilter('ignore')
-    m0 = c10.get_mesh(name, lab, seed, 'quick' if tier == 'quick' else 'thorough')
+    m0 = c10.get_mesh(name, lab, seed, 'quick' if tier == 'quick' or ms.seeds(seed)[name].nt > 3 else 'thorough')
     cls = type(m0).__name__
     kind = KIND_OF_CLASS[cls]
     m = tagged(m0, kind, BOUNDS[tier]['oriented_interior_facets'])
